@@ -180,6 +180,19 @@ def _scores(tier):
     out.append(("three_eight_pickup_two_eighths", lambda: G.simple_score([one(4, ts=(3, 8), pickup=4)])))
     out.append(("five_eight_pickup_four_eighths", lambda: G.simple_score([one(2, ts=(5, 8), pickup=4, tie=False)])))
 
+    def polymetric():
+        # the metre changes in ONE part only (4/4 -> 3/4 -> 6/8 in P2, 4/4 throughout in P1): every part keeps its own signatures
+        p1, p2 = one(4, pid="P1"), one(4, pid="P2", tie=False)
+        p2.add(sc.TimeSignature(3, 4), 16)
+        p2.add(sc.TimeSignature(6, 8), 28)
+        return G.simple_score([p1, p2])
+    out.append(("metre_changes_in_one_part_only", polymetric))
+
+    # a note of one voice begins on the pitch and at the moment at which a note of another voice ends (touching, not overlapping)
+    out.append(("a_voice_takes_over_the_pitch_another_voice_releases", lambda: G.simple_score([G.build_part("P1", 4, notes=[
+        ("e", 0, 4, "E", None, 4, 1, 1), ("c2", 0, 4, "C", None, 4, 2, 1), ("c1", 4, 4, "C", None, 4, 1, 1), ("x", 8, 8, "D", None, 4, 1, 1), ("y", 8, 8, "C", None, 4, 2, 1)],
+        measures=[(0, 16)], key=(0, "major"))])))
+
     def with_change_12_8():
         p = sc.Part("P1", quarter_duration=12)
         p.set_quarter_duration(48, 8)
@@ -335,6 +348,14 @@ def bounded(b):
             shift = min(w[0] for w in want)
             want_q = sorted((round(float((w[0] - shift) / mf.ticks_per_beat), 6), round(float((w[1] - w[0]) / mf.ticks_per_beat), 6), w[2]) for w in want)
             b.case("import/same_onset_duration_pitch_in_quarters", got_q == want_q, case, "re-imported %r, expected %r" % (got_q[:10], want_q[:10]))
+            # each part keeps its own time signatures where the mode keeps the parts apart (0, 1, 3: one part per part)
+            if mode in (0, 1, 3) and len(back.parts) == len(score.parts) and ana == "shift":
+                def tsl(p):
+                    o = p.first_point.t
+                    return sorted((round(float(O.quarter_pos(p, t.start.t) - O.quarter_pos(p, o)), 6), int(t.beats), int(t.beat_type)) for t in p.iter_all(sc.TimeSignature))
+                w_ts, g_ts = [tsl(p) for p in score.parts], [tsl(p) for p in back.parts]
+                b.case("import/each_part_has_the_time_signatures_of_its_source", sorted(map(repr, w_ts)) == sorted(map(repr, g_ts)), case,
+                       "time signatures per part (quarters from the part's start, beats, beat type) %r, written %r" % (g_ts, w_ts))
             # grouping under the same mode.  What a mode keeps: 0 part+voice; 1 part; 3 part; 5 (part, voice) as parts; 4 nothing.
             # Mode 2 writes parts into channels of one track while the importer's mode 2 is documented to ignore channels
             # (one part, voices by track): only "notes that shared a part and voice still do" can be asked of it.
